@@ -309,6 +309,65 @@ Definition check_parts (e : entry) : list bool :=
 
 Definition check_entry (e : entry) : bool := forallb (fun b => b) (check_parts e).
 
+(* ------------------------------------------------------------------ classes that supply their own matrices *)
+(* Mapping.__new__ has four arms on the class attributes _jac / _inv_jac (string matrices, read like the coordinate
+   expressions: parameters, real logical coordinates, physical coordinates replaced by the expressions):
+     neither : J := d expr,   Jinv := J^-1 (square)          both    : J := given, Jinv := given (nothing derived)
+     _jac    : J := given,    Jinv := J^-1 (square)          _inv_jac: Jinv := given, J := Jinv^-1
+   and in every arm  metric := J^T J,  metric_det := det metric  of the STORED J.  Nothing validates the supplied
+   matrix against the expressions: the object exposes what it was given and what is derived from it. *)
+Inductive supplied :=
+| SupNone
+| SupJac (J : list (list texpr))
+| SupInv (Ji : list (list texpr))
+| SupBoth (J Ji : list (list texpr)).
+
+Definition supplied_terms (s : supplied) : list texpr :=
+  match s with
+  | SupNone => []
+  | SupJac J => concat J
+  | SupInv Ji => concat Ji
+  | SupBoth J Ji => concat J ++ concat Ji
+  end.
+
+Definition mkplan_sup (e : entry) (s : supplied) : plan := mkplan_terms (entry_terms e ++ supplied_terms s).
+
+Definition same_mat (P : plan) (A B : list (list texpr)) : bool := all2 (all2 (teq P)) A B.
+
+Definition same_inv (P : plan) (e : entry) (Gi : list (list texpr)) : bool :=
+  match e_jinv e with Some m => same_mat P m Gi | None => false end.
+
+(* the stored matrix of the arm is the supplied one (arm "neither": the derivative of the expressions) *)
+Definition chk_supplied (P : plan) (s : supplied) (e : entry) : bool :=
+  match s with
+  | SupNone => chk_jac P e
+  | SupJac G => same_mat P (e_jac e) G
+  | SupInv Gi => same_inv P e Gi
+  | SupBoth G Gi => same_mat P (e_jac e) G && same_inv P e Gi
+  end.
+
+(* the arm computes one of J, Jinv from the other one *)
+Definition derives_inverse (s : supplied) : bool := match s with SupBoth _ _ => false | _ => true end.
+
+(* [plan/shape; stored = supplied; J Jinv = I; metric = J^T J; det; J = d expr]: the first five are what the code
+   guarantees in the arm (the third one except in the arm "both"), the last one holds iff the class is consistent *)
+Definition check_supplied_parts (s : supplied) (e : entry) : list bool :=
+  let P := mkplan_sup e s in
+  [chk_shape e && plan_valid P; chk_supplied P s e; chk_inv P e; chk_metric P e; chk_mdet P e; chk_jac P e].
+
+Definition check_supplied (s : supplied) (e : entry) : bool :=
+  let P := mkplan_sup e s in
+  chk_shape e && plan_valid P && chk_supplied P s e && (negb (derives_inverse s) || chk_inv P e)
+  && chk_metric P e && chk_mdet P e.
+
+Definition mk_sup (jac jinv : option (list (list sx))) : supplied :=
+  match jac, jinv with
+  | None, None => SupNone
+  | Some J, None => SupJac (map (map sx2t) J)
+  | None, Some Ji => SupInv (map (map sx2t) Ji)
+  | Some J, Some Ji => SupBoth (map (map sx2t) J) (map (map sx2t) Ji)
+  end.
+
 (* (0) the coordinate expressions are the pinned reference definitions of the named mapping
    (Model/CatalogueRefM.v): compared modulo the field axioms and the relations of a plan computed over both
    sides, so an equivalent rewriting of an expression string is accepted and a changed coefficient is not.
